@@ -66,6 +66,23 @@ impl G {
 			G::Func => json!({"t":"f"}),
 		}
 	}
+	/// canonical JSON for comparing data: object members sorted by key (code point order),
+	/// numbers as `Display for f64` text
+	fn cj(&self) -> Value {
+		match self {
+			G::Null => Value::Null,
+			G::Bool(b) => json!(b),
+			G::Num(n) => json!({"n": format!("{n}")}),
+			G::Str(s) => json!(s),
+			G::Arr(xs) => Value::Array(xs.iter().map(G::cj).collect()),
+			G::Obj(kvs) => {
+				let mut m: Vec<(&String, Value)> = kvs.iter().map(|(k, v)| (k, v.cj())).collect();
+				m.sort_by(|a, b| a.0.chars().cmp(b.0.chars()));
+				json!({"o": m.into_iter().map(|(k, v)| json!([k, v])).collect::<Vec<_>>()})
+			}
+			G::Func => json!({"f": true}),
+		}
+	}
 	fn size(&self) -> usize {
 		match self {
 			G::Str(s) => 1 + s.chars().count() / 4,
@@ -129,6 +146,24 @@ impl Env {
 			Ok(Err(e)) => Out::Err(format!("{}", e.error())),
 			Err(p) => Out::Panic(p),
 		}
+	}
+}
+
+/// tagged JSON of the REAL value: object fields in the order the writers iterate them
+fn lj_real(v: &Val, func_ok: bool) -> Value {
+	match v {
+		Val::Null => json!({"t":"z"}),
+		Val::Bool(b) => json!({"t":"b","b":b}),
+		Val::Num(n) => json!({"t":"n","r":format!("{n}")}),
+		Val::Str(s) => json!({"t":"s","s":s.to_string()}),
+		Val::Arr(a) => json!({"t":"a","xs":a.iter().map(|x| lj_real(&x.expect("eager"), func_ok)).collect::<Vec<_>>()}),
+		Val::Obj(o) => json!({"t":"o","kv":o.fields().into_iter().map(|k| {
+			let x = o.get(k.clone()).expect("eager").expect("field exists");
+			json!([k.to_string(), lj_real(&x, func_ok)])
+		}).collect::<Vec<_>>()}),
+		Val::Func(_) => json!({"t":"f"}),
+		#[allow(unreachable_patterns)]
+		_ => json!({"t":"f"}),
 	}
 }
 
@@ -247,6 +282,9 @@ const WORDS: &[&str] = &[
 	"''", "\"a\"", "\"", "\"\"", "a\\b", "\\", "\\n", "\\u0041", "a/b", "/", "a.b", "a_b", "key", "Key-1",
 	"a-b_c", " a", "a ", " ", "  ", "\t", "\ta", "a\t", "a=b", "a = b", "[a.b]", "a.b.c", "a\"b", "a'b",
 	"true ", " true", "1 ", "t", "f", "T", "F", "None", "True", "k", "x", "section", "main",
+	// shortest members of the YAML 1.1 int / float patterns (length guards of bare_safe)
+	"0xA", "0x1", "0xf", "-0xA", "0b0", "0b1_", "-0b0", "0_0", "00", "1_0", "0.", "0.0", ".0", "-.0", "1.e+3",
+	"0.e-1", ".1e+1", "1.2.3", "0o7", "-0o17", "0x_", "0b_1", "1_", "-1_", "_1_", "0.5e", "1e+3", "2001-01-01a",
 ];
 
 /// single characters: format-hostile ASCII, controls, U+007F, C1, non-ASCII, non-BMP
@@ -790,6 +828,108 @@ pub fn run(opts: &Opts) {
 		}
 	}
 	obs.f.flush().expect("flush obs");
+
+	// ---- 5. whole-writer correspondence: TOML / Python / PythonVars / INI, byte for byte -----
+	{
+		let o1 = |k: &str, v: G| G::Obj(vec![(k.to_string(), v)]);
+		let e = || G::Obj(vec![]);
+		let n1 = || G::Num(1.0);
+		let mut toml_docs: Vec<G> = vec![
+			e(),
+			o1("a", e()),
+			o1("a", o1("b", e())),
+			o1("a", o1("b", o1("c", e()))),
+			o1("a", G::Obj(vec![("b".into(), e()), ("c".into(), e())])),
+			o1("a", G::Obj(vec![("b".into(), n1()), ("c".into(), e())])),
+			o1("a", G::Arr(vec![])),
+			o1("a", G::Arr(vec![e()])),
+			o1("a", G::Arr(vec![e(), e()])),
+			o1("a", G::Arr(vec![e(), o1("b", e())])),
+			o1("a", G::Arr(vec![o1("b", G::Arr(vec![o1("c", n1())])), o1("b", G::Arr(vec![e()]))])),
+			o1("a", G::Arr(vec![e(), n1()])),
+			o1("a", G::Arr(vec![G::Arr(vec![]), G::Arr(vec![e()])])),
+			o1("a", G::Arr(vec![n1(), G::Arr(vec![n1(), G::Str("x".into())]), e(), o1("k", e())])),
+			G::Obj(vec![("a".into(), n1()), ("b".into(), o1("c", n1())), ("d".into(), G::Bool(false)), ("e".into(), o1("f", o1("g", n1())))]),
+			G::Obj(vec![("".into(), o1("", o1("", n1())))]),
+			G::Obj(vec![("a.b".into(), o1("c d".into(), o1("\"", G::Arr(vec![o1("x", n1())]))))]),
+			o1("a", G::Null),
+			o1("a", o1("b", G::Null)),
+			o1("a", G::Arr(vec![o1("b", G::Func)])),
+			o1("a", G::Arr(vec![G::Null])),
+		];
+		for _ in 0..90 * scale {
+			toml_docs.push(gen_toml(&mut rng, 3));
+		}
+		for _ in 0..10 * scale {
+			let g = gen_toml(&mut rng, 2);
+			toml_docs.push(poison(&mut rng, g));
+		}
+		for g in &toml_docs {
+			let real = env.val(g);
+			let lj = lj_real(&real, true);
+			for via in &toml_vias {
+				let (pad, skip) = match via {
+					Via::TomlStd { indent } => (indent.clone(), false),
+					Via::TomlCli { pad } => (" ".repeat(*pad), true),
+					_ => unreachable!(),
+				};
+				let o = via.run(&env, g);
+				let op = json!({"op":"man.doc","fmt":"toml","pad":pad,"skip":skip,"nl":false,"v":lj,
+					"tok": match &o { Out::Ok(s) => json!(s), _ => Value::Null }, "size": g.size()});
+				let ans = match &o {
+					Out::Ok(s) => json!({"out": s, "back": g.cj()}),
+					other => other.json(),
+				};
+				w.case(op, ans);
+				bump("doc.toml");
+			}
+		}
+		let mut py_docs: Vec<G> = vec![e(), G::Arr(vec![]), G::Null, G::Func, G::Arr(vec![G::Func]), o1("a", G::Arr(vec![e(), G::Arr(vec![])]))];
+		for _ in 0..80 * scale {
+			let g = gen_val(&mut rng, 3, pcfg);
+			py_docs.push(if rng.chance(1, 10) { poison(&mut rng, g) } else { g });
+		}
+		for g in &py_docs {
+			let lj = lj_real(&env.val(g), true);
+			for (via, fmt) in [(Via::Python, "python"), (Via::PythonVars, "pyvars")] {
+				let o = via.run(&env, g);
+				let op = json!({"op":"man.doc","fmt":fmt,"pad":"","skip":false,"nl":false,"v":lj,
+					"tok": match &o { Out::Ok(s) => json!(s), _ => Value::Null }, "size": g.size()});
+				let ans = match &o {
+					Out::Ok(s) => json!({"out": s}),
+					other => other.json(),
+				};
+				w.case(op, ans);
+				bump(&format!("doc.{fmt}"));
+			}
+		}
+		let mut ini_docs: Vec<G> = vec![
+			G::Obj(vec![("sections".into(), e())]),
+			G::Obj(vec![("main".into(), e()), ("sections".into(), e())]),
+			G::Obj(vec![("main".into(), G::Null), ("sections".into(), o1("s", e()))]),
+			G::Obj(vec![("main".into(), o1("a", G::Arr(vec![]))), ("sections".into(), o1("s", o1("k", G::Arr(vec![]))))]),
+			G::Obj(vec![("main".into(), o1("a", G::Arr(vec![G::Arr(vec![]), e(), G::Null, o1("x", G::Arr(vec![n1(), G::Str("q\"".into())]))]))),
+				("sections".into(), G::Obj(vec![("b".into(), o1("k", o1("x", G::Bool(true)))), ("a".into(), e()), ("B".into(), o1("k", G::Null))]))]),
+			G::Obj(vec![("sections".into(), o1("s", o1("k", G::Func)))]),
+		];
+		for _ in 0..60 * scale {
+			ini_docs.push(gen_ini(&mut rng));
+		}
+		for g in &ini_docs {
+			let lj = lj_real(&env.val(g), true);
+			for (via, nl) in [(Via::IniStd, true), (Via::IniCli, false)] {
+				let o = via.run(&env, g);
+				let op = json!({"op":"man.doc","fmt":"ini","pad":"","skip":false,"nl":nl,"v":lj,
+					"tok": match &o { Out::Ok(s) => json!(s), _ => Value::Null }, "size": g.size()});
+				let ans = match &o {
+					Out::Ok(s) => json!({"out": s}),
+					other => other.json(),
+				};
+				w.case(op, ans);
+				bump("doc.ini");
+			}
+		}
+	}
 
 	let cases = w.n;
 	w.finish(
